@@ -34,7 +34,7 @@ import rsenum as _rs
 
 ENGINE = "M (MIR -> SMT, z3): Lexer::consume_name + flatten_name_parts + Name::new over symbolic character sequences and an uninterpreted key set"
 
-MERGE = r"is_name_part_char|is_name_start_char|is_additional_name_symbol|is_whitespace|is_vertical_space|is_digit|names\.rs:\d+:\d+: \d+:\d+>::new$"
+MERGE = r"is_name_part_char|is_name_start_char|is_additional_name_symbol|is_whitespace|is_vertical_space|is_digit|^flatten_name_parts$|names\.rs:\d+:\d+: \d+:\d+>::new$"
 
 # ----------------------------------------------------------------------------- character classes from the DMN grammar (oracle side)
 
@@ -294,6 +294,44 @@ def m_slice_contains_char(ex, st, callee, args, dest_ty):
     yield st, mk_bool(z3.simplify(z3.Or([i.e == x.e for i in items] + [z3.BoolVal(False)])))
 
 
+def m_adapt_next(ex, st, callee, args, dest_ty):
+    """next() on a filter / map chain: the chain is materialised once by running the real (pure) closures, then stepped through"""
+    r = args[0]
+    it = ex.read(st, r.cell, r.projs)
+    if it.sort == "Adapt":
+        for st2, items in fv.adapt_items(ex, st, it):
+            base = Ref(ex.new_cell(st2, VecV(z3.IntVal(len(items)), tuple(items), "adapted"), "adapted"))
+            ex.write(st2, r.cell, r.projs, Opaque("SliceIter", "owned", (base, 0)))
+            yield from fv.m_iter_next(ex, st2, callee, args, dest_ty)
+        return
+    yield from fv.m_iter_next(ex, st, callee, args, dest_ty)
+
+
+def m_chars_all(ex, st, callee, args, dest_ty):
+    """Chars::all(f): short-circuit over the characters, f is the real code"""
+    from mir.models import call_fn_value
+    it = args[0]
+    it = ex.read(st, it.cell, it.projs) if isinstance(it, Ref) else it
+    seq = it.info
+    n = ex.concrete(seq.len)
+    if n is None:
+        raise MirUnsupported("Chars::all over a string of symbolic length")
+
+    def rec(st, k):
+        if k == n:
+            yield st, mk_bool(True)
+            return
+        for o in call_fn_value(ex, st, args[1], [seq.items[k]]):
+            if o.kind != "return":
+                yield o
+                continue
+            for st2 in ex.branch(o.st, z3.Not(o.value.e)):
+                yield st2, mk_bool(False)
+            for st2 in ex.branch(o.st, o.value.e):
+                yield from rec(st2, k + 1)
+    yield from rec(st, 0)
+
+
 def m_map_enumerate(ex, st, callee, args, dest_ty):
     """Map<Iter<..>, closure>::enumerate(): the mapped items are produced by running the real closure, then enumerated"""
     for st2, items in fv.adapt_items(ex, st, args[0]):
@@ -302,6 +340,10 @@ def m_map_enumerate(ex, st, callee, args, dest_ty):
 
 
 NAME_MODELS = [
+    (R(r"^<(std::iter::)?(Map|Filter|FilterMap)<.*> as Iterator>::(filter|map|filter_map)::<.*>$"), fv.m_iter_adapt),
+    (R(r"^<(std::iter::)?(Map|Filter|FilterMap)<.*> as IntoIterator>::into_iter$"), fv.m_into_iter_id),
+    (R(r"^<(std::iter::)?(Map|Filter|FilterMap)<.*> as Iterator>::next$"), m_adapt_next),
+    (R(r"^<Chars<'_> as Iterator>::all::<.*>$"), m_chars_all),
     (R(r"^core::slice::<impl \[char\]>::contains$"), m_slice_contains_char),
     (R(r"^<Map<std::slice::Iter<.*>, .*> as Iterator>::enumerate$"), m_map_enumerate),
     (R(r"^<Enumerate<Map<.*>> as Iterator>::next$"), fv.m_iter_next),
